@@ -937,7 +937,7 @@ def _mutates(cd):
     return False
 
 
-COMBINATORS = ('unwrap_or_else', 'or_else', 'and_then', 'map_or', 'map_or_else', 'map', 'map_err', 'is_some_and', 'is_none_or', 'is_ok_and', 'is_err_and')
+COMBINATORS = ('unwrap_or_else', 'or_else', 'and_then', 'map_or', 'map_or_else', 'map', 'map_err', 'is_some_and', 'is_none_or', 'is_ok_and', 'is_err_and', 'filter')
 
 
 def desugar_combinators_dict(F, d):
@@ -1130,6 +1130,18 @@ def desugar_combinators_dict(F, d):
         elif name == 'map_or_else':
             pos = call_into(fcb, fkind, fop, [payload(pos_name, pos_vi)], dl, T)
             neg = call_into(dcb, dkind, dop, [payload('Err', 1)] if is_res else [], dl, T)
+        elif name == 'filter':
+            if is_res:
+                continue
+            # Some(x) if pred(&x) => Some(x), otherwise None
+            keep = new_local('bool')
+            rf = new_local('&_')
+            some_b = new_block([assign(dl, {'k': 'use', 'op': {'m': {'l': sp['l'], 'p': []}}})], goto_T)
+            none_b = new_block([assign(dl, {'k': 'aggr', 'ak': {'adt': adt, 'variant': 'None', 'vi': 0}, 'ops': []})], goto_T)
+            sw = new_block([], {'k': 'switch', 'op': {'m': {'l': keep, 'p': []}}, 'arms': [['0', none_b]], 'otherwise': some_b})
+            pos = call_into(fcb, fkind, fop, [{'m': {'l': rf, 'p': []}}], keep, sw)
+            B[pos]['stmts'] = [assign(rf, {'k': 'ref', 'mut': False, 'pl': {'l': sp['l'], 'p': [{'d': 'Some', 'i': 1}, {'f': 0, 'n': '0', 'a': adt}]}})] + B[pos]['stmts']
+            neg = new_block([assign(dl, {'k': 'aggr', 'ak': {'adt': adt, 'variant': 'None', 'vi': 0}, 'ops': []})], goto_T)
         elif name == 'map':
             tmp = new_local(fcb.d['locals'][0]['ty'])
             wrap = new_block([assign(dl, {'k': 'aggr', 'ak': {'adt': adt, 'variant': pos_name, 'vi': pos_vi}, 'ops': [{'m': {'l': tmp, 'p': []}}]})], goto_T)
